@@ -255,3 +255,9 @@ func VerifSetTracer(t gpbft.Tracer) gpbft.Tracer {
 
 // Begun: the participant has begun its current instance (proposal and committee fetched).
 func (v *VerifRunner) Begun() bool { return v.r.participant.VerifBegun() }
+
+// PublishRaw publishes bytes on the GPBFT topic the running runner joined (what any peer's message
+// goes through: the registered validator, the subscription, the validated-message queue).
+func (v *VerifRunner) PublishRaw(ctx context.Context, data []byte) error {
+	return v.r.topic.Publish(ctx, data)
+}
